@@ -12,6 +12,8 @@ NA = {
 PENDING = "contracts and obligations for this property are still under construction in this session; not claimed until they discharge"
 TECH = "contract-based deductive verification: VCs generated over go/ssa of the real code from //@ contracts, discharged by z3 5.1.0 / z3 4.8.12 / cvc5 1.0.3"
 CLAIMS = {
+ "C04": ("(*Cache).InjectDevices and (*ContainerEdits).Append are under contract. Postconditions of InjectDevices, for any cache content, any OCI spec and any request list of any length: nil OCI spec ⇒ error and the request list returned; otherwise the returned list is exactly the subsequence of requested names that do not resolve in the index after the refresh — each entry is devices[idx[j]] with idx strictly increasing (order and repetitions kept, ghost witness idx), every miss index occurs, every entry is a miss; if that list is non-empty the result is an error and every heap component of the OCI runtime-spec types is unchanged at every object that existed at entry (no call of Apply on that path: a checked assertion shows Apply is only reached when every requested name resolves; Append writes only the fresh edits object and fresh or own backing arrays). Loop by inductive invariant.",
+         "Assumed: refreshIfRequired is a trusted contract (its body, the refresh/watch machinery, is not verified here; that it cannot touch OCI objects is discharged by a type-reachability check over its call graph; that it re-establishes the index well-formedness CacheWF and leaves cached cdi objects alone is assumed), sync.Mutex Lock/Unlock, strings.Join, fmt.Errorf; Apply's contract (frame only) is verified under C14.", "DESIGN.md §4 C04"),
  "C05": ("The in-memory admission pipeline is under contract end to end: newSpec, (*Spec).validate, newDevice, (*Device).validate, (*ContainerEdits).Validate/isEmpty, ValidateEnv, the DeviceNode/Hook/Mount/IntelRdt validators, ValidateSpecAnnotations, ValidateVersion and the version predicates (C06), the vendor/class/device-name validators (C07). Top-level postcondition of newSpec: err = nil iff the pluggable validator accepts and RawSpecOK(raw), where RawSpecOK is transcribed from the statement (released version not below the minimum, kind = valid vendor/class, annotations checked whatever their static type, spec-level edits well-formed, at least one device, every device with a valid name, checked annotations, non-empty well-formed edits, names pairwise distinct, null list entries rejected); every leaf validator has its own iff contract; loops by invariants over any number of devices and entries.",
          "Assumed: yaml.UnmarshalStrict (unknown/duplicate keys, surface syntax) — everything before a *cdi.Spec value exists; the k8s qualified-name and size checks of internal/validation/k8s are an opaque predicate introduced by a trusted contract on k8s.ValidateAnnotations (what is proved is that it is consulted for every annotation map); the pluggable validator is uninterpreted; strings.IndexByte/ContainsAny/Join, errors.New, fmt.Errorf; ReadSpec and WriteSpec wrappers (file I/O) are not under contract, they call newSpec.", "DESIGN.md §4 C05"),
  "C07": ("Every function of pkg/parser is under contract; the grammar (VCName/DevName/QName predicates transcribed from the statement), exact recomposition, the failure results and compose-then-parse are postconditions discharged for all strings of every length and byte content, with loop invariants instead of unrolling; all run-time panic conditions of those functions are discharged under precondition true (totality).",
